@@ -483,6 +483,21 @@ func Run(tier string) {
 			off += len(ln)
 		}
 	}
+	// key files in every line-ending shape: each of LF, CRLF, a bare CR, CR CR, LF CR, nothing, NUL and a form feed after
+	// the last line, and between lines, of files with zero, one and two keys, a comment, an empty line
+	{
+		xid := w.XIdentity("x1")
+		ends := []string{"", "\n", "\r\n", "\r", "\r\r", "\n\r", "\r\n\r", "\x00", "\f", "\n\n\r"}
+		for _, key := range []string{xid.String(), xid.Recipient().String()} {
+			for _, a := range ends {
+				for _, b := range ends {
+					for _, body := range []string{"", key, "# comment", key + a + key, "# c" + a + key, a + key} {
+						inputs = append(inputs, input{"keyfile-endings", []byte(body + b)})
+					}
+				}
+			}
+		}
+	}
 	tg := targets(w)
 	var skipped int64
 	vk.Parallel(len(inputs), 16, func(i int) {
